@@ -45,10 +45,10 @@ def tr(vc, x):
     return truth(x) if vc.mode == "sym" else bool(x)
 
 
-def sym_spec(vc, tag):
+def sym_spec(vc, tag, tls=None):
     """a symbolic destination spec: (address (host, port), tls, via None | (scheme, (host, port)), transport tcp|udp)"""
     addr = vc.lift((vc.sym_str(tag + "_host"), vc.sym_int(tag + "_port", lo=0, hi=65535)))
-    tls = vc.sym_bool(tag + "_tls")
+    tls = vc.sym_bool(tag + "_tls") if tls is None else tls
     via = vc.opt(tag + "_via", vc.lift((vc.sym_str(tag + "_via_scheme"), (vc.sym_str(tag + "_via_host"), vc.sym_int(tag + "_via_port", lo=0, hi=65535)))))
     tp = If(vc.sym_bool(tag + "_udp"), "udp", "tcp")
     return addr, tls, via, tp
@@ -190,7 +190,7 @@ def sym_conn(vc, tag, spec=None, state=None):
     return mk_server(vc, tag, address=spec[0], tls=spec[1], via=spec[2], transport_protocol=spec[3],
                      state=state if state is not None else conn_state(vc, tag + "_state"),
                      error=vc.opt(tag + "_error", vc.sym_str(tag + "_error_v")),
-                     alpn=vc.opt(tag + "_alpn", If(vc.sym_bool(tag + "_alpn_h2"), b"h2", b"http/1.1"))), spec
+                     alpn=vc.opt(tag + "_alpn", b"h2")), spec   # ALPN is only ever compared with b"h2": None stands for every other value
 
 
 def install_constructor_summaries(vc, made):
@@ -233,12 +233,12 @@ def install_constructor_summaries(vc, made):
     vc.summary(H + ":HttpClient", http_client)
 
 
-def _get_connection_contract(vc, mode_name, c1_waiting, ctx_registered, c1_tunnel=False):
+def _get_connection_contract(vc, mode_name, c1_waiting, ctx_registered, c1_tunnel=False, e_tls=None):
     from mitmproxy.connection import ConnectionState as S
     from mitmproxy.proxy.layers.http import HTTPMode
     mode = HTTPMode[mode_name]
-    client = mk_client(vc, alpn=vc.opt("client_alpn", If(vc.sym_bool("client_h2"), b"h2", b"http/1.1")), sni="client.sni.example")
-    es = sym_spec(vc, "e")
+    client = mk_client(vc, alpn=vc.opt("client_alpn", b"h2"), sni="client.sni.example")
+    es = sym_spec(vc, "e", tls=e_tls)   # the request's TLS flag is a case split of the scenario family (keeps each scenario small)
     ev = mk_cmd(vc, es)
     c1, s1 = sym_conn(vc, "c1", state=S.CLOSED if c1_waiting else None)
     xs_conn, xs = sym_conn(vc, "ctx")
@@ -343,23 +343,24 @@ def _get_connection_contract(vc, mode_name, c1_waiting, ctx_registered, c1_tunne
     vc.ensure("frame.existing_connections_untouched", And(spec_eq(vc, conn_spec(c1), s1), Implies(use_ctx or True, spec_eq(vc, conn_spec(xs_conn), xs))))
 
 
-def _mk_gc(mode_name, c1_waiting, ctx_registered):
-    @scenario(f"get_connection.{mode_name}.{'pending' if c1_waiting else 'settled'}.{'ctxreg' if ctx_registered else 'ctxfree'}",
+def _mk_gc(mode_name, c1_waiting, ctx_registered, e_tls):
+    @scenario(f"get_connection.{mode_name}.{'pending' if c1_waiting else 'settled'}.{'ctxreg' if ctx_registered else 'ctxfree'}.{'tls' if e_tls else 'plain'}",
               functions=[HL + ".get_connection", G + ".connection_spec_matches"], asserts_are_obligations=True, max_paths=6000)
     def s(vc):
-        _get_connection_contract(vc, mode_name, c1_waiting, ctx_registered)
+        _get_connection_contract(vc, mode_name, c1_waiting, ctx_registered, e_tls=e_tls)
     return s
 
 
 for _m in ("regular", "transparent", "upstream"):
     for _w in (False, True):
         for _r in (False, True):
-            _mk_gc(_m, _w, _r)
+            for _t in (False, True):
+                _mk_gc(_m, _w, _r, _t)
 
 
 @scenario("get_connection.regular.settled.ctxfree.tunnel_entry", functions=[HL + ".get_connection"], asserts_are_obligations=True, max_paths=6000)
 def s_gc_tunnel(vc):
-    _get_connection_contract(vc, "regular", False, False, c1_tunnel=True)
+    _get_connection_contract(vc, "regular", False, False, c1_tunnel=True, e_tls=False)
 
 
 @scenario("register_connection", functions=[HL + ".register_connection"], asserts_are_obligations=True)
@@ -368,7 +369,7 @@ def s_register(vc):
     from mitmproxy.proxy.layers.http import HTTPMode
     n = vc.case("waiting", [1, 2, 3])
     failed = vc.case("failed", [False, True])
-    client = mk_client(vc, alpn=vc.opt("client_alpn", If(vc.sym_bool("client_h2"), b"h2", b"http/1.1")))
+    client = mk_client(vc, alpn=vc.opt("client_alpn", b"h2"))
     c, cs = sym_conn(vc, "c", state=S.CLOSED if failed else S.OPEN)
     other, _ = sym_conn(vc, "other")
     cmds = [mk_cmd(vc, cs) for _ in range(n)]          # invariant W: every command waiting on c matches c
